@@ -67,3 +67,41 @@ Proof.
   right. intros r Hr. eapply nondec_split; [apply sort_nondec|exact Hr|exact H].
 Qed.
 Print Assumptions spec_search_topk.
+
+(* C15: the merged vector field of the specification holds exactly the vectors of surviving
+   documents under the new numbering (with multiplicity: one entry per surviving input entry), keeps
+   the field's configuration, and does not exist when no vector survives. *)
+Definition input_vec (cms : list (list vfield * list N)) (f : str) (nd : N) (bits : list N) : Prop :=
+  exists cs m v0 d, In (cs, m) cms /\ find (fun v => seqb (vf_name v) f) cs = Some v0 /\
+                    In (d, bits) (vf_vecs v0) /\ survives m d = true /\ nd = newnum m d.
+
+Theorem merge_vfield_spec cms f :
+  match merge_vfield cms f with
+  | Some v => vf_name v = f /\ vf_vecs v <> [] /\ (forall nd bits, In (nd, bits) (vf_vecs v) <-> input_vec cms f nd bits)
+  | None => forall nd bits, ~ input_vec cms f nd bits
+  end.
+Proof.
+  unfold merge_vfield.
+  set (parts := flat_map (fun cm : list vfield * list N => match find (fun v => seqb (vf_name v) f) (fst cm) with
+                                   | Some v => [(v, snd cm)] | None => [] end) cms).
+  assert (Hparts: forall v0 m, In (v0, m) parts <-> exists cs, In (cs, m) cms /\ find (fun v => seqb (vf_name v) f) cs = Some v0).
+  { intros v0 m. subst parts. rewrite in_flat_map. split.
+    - intros ([cs m'] & Hin & H). cbn [fst snd] in H. destruct (find _ cs) as [v|] eqn:E; [|destruct H].
+      destruct H as [H|[]]. injection H as <- <-. exists cs. now split.
+    - intros (cs & Hin & E). exists (cs, m). split; [exact Hin|]. cbn [fst snd]. rewrite E. now left. }
+  set (vs := flat_map (fun p : vfield * list N => flat_map (fun dv : N * list N => if survives (snd p) (fst dv) then [(newnum (snd p) (fst dv), snd dv)] else [])
+                                            (vf_vecs (fst p))) parts).
+  assert (Hvs: forall nd bits, In (nd, bits) vs <-> input_vec cms f nd bits).
+  { intros nd bits. subst vs. rewrite in_flat_map. unfold input_vec. split.
+    - intros ([v0 m] & Hp & H). cbn [fst snd] in H. apply in_flat_map in H as ([d b] & Hd & H). cbn [fst snd] in H.
+      destruct (survives m d) eqn:E; [|destruct H]. destruct H as [H|[]]. injection H as <- <-.
+      apply Hparts in Hp as (cs & Hin & Ef). exists cs, m, v0, d. repeat split; auto.
+    - intros (cs & m & v0 & d & Hin & Ef & Hd & Hs & ->). exists (v0, m). split; [apply Hparts; exists cs; now split|].
+      cbn [fst snd]. apply in_flat_map. exists (d, bits). split; [exact Hd|]. cbn [fst snd]. rewrite Hs. now left. }
+  destruct parts as [|[v0 m0] parts'] eqn:Ep.
+  - intros nd bits H. apply Hvs in H. subst vs. destruct H.
+  - fold vs. destruct vs as [|x vs'] eqn:Ev.
+    + intros nd bits H. apply Hvs in H. destruct H.
+    + cbn [vf_name vf_vecs]. split; [reflexivity|]. split; [discriminate|]. intros nd bits. rewrite <- Hvs. reflexivity.
+Qed.
+Print Assumptions merge_vfield_spec.
